@@ -41,6 +41,7 @@ type Frame struct {
 	stack     []*ssa.Function
 	deferOrd  map[*ssa.Defer]int
 	curRec    *loopRec // innermost invariant-cut loop around the block being executed
+	rhsToLhs  map[ast.Expr]string
 }
 
 func (e *Eng) typeID(t types.Type) int {
@@ -249,6 +250,33 @@ func (fr *Frame) execFunction(st0 *State) (*State, []Val) {
 	}
 	fr.loopRecs = map[string]*loopRec{}
 	fr.callCount = map[string]int{}
+	// go/ssa reports `x := T{...}` as "x is nil" followed by an anonymous literal value: recover the binding from the syntax
+	fr.rhsToLhs = map[ast.Expr]string{}
+	if syn := fn.Syntax(); syn != nil {
+		ast.Inspect(syn, func(n ast.Node) bool {
+			switch a := n.(type) {
+			case *ast.AssignStmt:
+				if len(a.Lhs) == len(a.Rhs) {
+					for i, l := range a.Lhs {
+						if id, ok := l.(*ast.Ident); ok && id.Name != "_" {
+							fr.rhsToLhs[ast.Unparen(a.Rhs[i])] = id.Name
+						}
+					}
+				}
+			case *ast.ValueSpec:
+				if len(a.Names) == len(a.Values) {
+					for i, id := range a.Names {
+						if id.Name != "_" {
+							fr.rhsToLhs[ast.Unparen(a.Values[i])] = id.Name
+						}
+					}
+				}
+			case *ast.FuncLit:
+				return n == syn // nested closures have their own frames
+			}
+			return true
+		})
+	}
 	fr.deferOrd = map[*ssa.Defer]int{}
 	ord := 0
 	for _, b := range fn.Blocks {
@@ -315,8 +343,8 @@ func (fr *Frame) execFunction(st0 *State) (*State, []Val) {
 			_ = phiFrom
 			st = r.mergeStates(ins)
 		}
-		if l := fr.li.byHeader[n.b]; l != nil && (l.spec == nil || l.spec.Unroll == 0) {
-			st = fr.cutLoop(st, n, l)
+		if fr.li.isCutNode(n) {
+			st = fr.cutLoop(st, n, fr.li.byHeader[n.b])
 		}
 		out[k] = fr.execBlock(st, n)
 	}
@@ -502,7 +530,8 @@ func (fr *Frame) execBlock(st *State, n node) []*State {
 	best := -1
 	for _, l := range fr.li.loops {
 		if l.body[b] && (l.spec == nil || l.spec.Unroll == 0) {
-			if rec := fr.loopRecs[node{l.header, fr.li.restrict(n.ctx, l.header)}.key()]; rec != nil && (best < 0 || len(l.body) < best) {
+			hc := fr.li.restrict(n.ctx, l.header)
+			if rec := fr.loopRecs[node{l.header, hc}.key()]; rec != nil && (best < 0 || len(l.body) < best) {
 				fr.curRec = rec
 				best = len(l.body)
 			}
@@ -584,6 +613,19 @@ func (fr *Frame) execInstr(st *State, in ssa.Instruction) {
 	case *ssa.DebugRef:
 		obj := x.Object()
 		if obj == nil {
+			if name, ok := fr.rhsToLhs[x.Expr]; ok && !x.IsAddr {
+				if _, isLit := x.Expr.(*ast.CompositeLit); isLit {
+					if _, held := st.vars["&"+name]; !held {
+						fr.setVar(st, name, fr.val(st, x.X))
+					}
+				} else if u, isU := x.Expr.(*ast.UnaryExpr); isU {
+					if _, isLit := u.X.(*ast.CompositeLit); isLit {
+						if _, held := st.vars["&"+name]; !held {
+							fr.setVar(st, name, fr.val(st, x.X))
+						}
+					}
+				}
+			}
 			return
 		}
 		if _, isVar := obj.(*types.Var); !isVar {
@@ -1184,7 +1226,11 @@ func (fr *Frame) convert(st *State, x *ssa.Convert) {
 	case fromInt && s.sortOf(to) == SReal:
 		fr.bind(st, x, TV{app("to_real", v.S), SReal, to})
 	case v.Sort == SReal && toInt:
-		nv := r.freshOf(st, "f2i", to)
+		// truncation toward zero; values outside the target range are implementation-defined: left arbitrary
+		tr := r.define("f2i", SInt, ite(app(">=", v.S, "0.0"), app("to_int", v.S), app("-", app("to_int", app("-", v.S)))))
+		lo, hi, _ := intRange(to)
+		nv := r.freshOf(st, "f2iv", to)
+		r.assumeGlobal(implies(and(app("<=", bigNum(lo), tr), app("<=", tr, bigNum(hi))), eq(nv.S, tr)))
 		fr.bind(st, x, nv)
 	case v.Sort == SReal && s.sortOf(to) == SReal:
 		fr.bind(st, x, TV{v.S, SReal, to})
